@@ -434,6 +434,17 @@ pub fn run(ctx: &Ctx) -> i32 {
             check_dense(ctx, st, &json!({"sigma": sigma, "len": len, "shorter": shorter, "left_out": left_out}));
         });
     }
+    // states with very many outgoing edges next to multi-code-point graphemes and their lone first code points
+    {
+        let fanouts = [33usize, 34, 40, 65, 70, 129, 140, 257, 300];
+        let n = if ctx.thorough { 1800 } else { 72 };
+        par_for(&ctx.run, n, |i, st| {
+            let mut rng = Rng::new(seed, 0x165_0000 + i as u64);
+            let tcs = gen::wide_fanout_family(&mut rng, fanouts[i % fanouts.len()]);
+            st.count("wide_fanout_families");
+            check_case(ctx, st, &tcs, Settings::new(0));
+        });
+    }
     // prefixes followed by different sets of repeat counts (all pairs of subsets of {1..5})
     {
         let cs = gen::count_set_cases();
